@@ -2,7 +2,7 @@ import BpModel.All
 import BpProofs.EvoKeep
 import BpProofs.EvoProj
 import BpProofs.EvoAgree
-import BpProofs.PermCopy.Perm3
+import BpProofs.SpecPerm3
 import BpProofs.Props.C01
 /-
   C08, schema evolution: the projection of a well-typed message of the newer class onto the
@@ -10,7 +10,7 @@ import BpProofs.Props.C01
   kept slots; the records of one slot all carry the number of that slot's field.
 -/
 namespace Bp
-open Gen PermCopy
+open Gen
 
 /-- **the setting**: schemas `Sn` (newer) and `So` (older) agree on every class except `c`; the
     older class `dold` keeps the sub-list `keep mask dn.fields` of the fields of the newer class
